@@ -4,7 +4,7 @@ from __future__ import annotations
 import ast
 from typing import Dict, List, Optional
 
-from .. import callgraph, cfg as C, flow
+from .. import callgraph, cfg as C, flow, guards
 from ..program import AnalysisError, Program, walk_local, unparse, norm
 from ..report import Check
 from ..types import Types
@@ -278,6 +278,36 @@ def run(prog: Program, chk: Check):
                 if not good:
                     okv = False
                     why.append(f"{norm(n.ast)} vs payload {norm(p)}")
+            if missing and okv and hp is not None and "." not in hp:
+                # a header taken from a per-object cache (`h = x.attr; if h is None: h = ...; h.num_data_bytes = V; x.attr = h`):
+                # the cached object carries the length it was given when created, provided the attribute is only ever assigned
+                # this very local (object identity), nobody else rewrites the length of a cached header, and the paths that
+                # reach the send without a length store are exactly the `h is not None` ones (induction over the calls)
+                cache_attrs = [r.attr for k_, r in _defs(f.node, hp) if k_ == "assign" and isinstance(r, ast.Attribute) and not (path_of(r) or "self.").startswith("self.")]
+                cache_attrs += [r.args[1].value for k_, r in _defs(f.node, hp) if k_ == "assign" and isinstance(r, ast.Call) and isinstance(r.func, ast.Name) and r.func.id == "getattr" and len(r.args) >= 2
+                                and isinstance(r.args[1], ast.Constant) and isinstance(r.args[1].value, str) and path_of(r.args[0]) not in (None, "self")]
+                if cache_attrs:
+                    attr = cache_attrs[0]
+                    inv = True
+                    for f2 in prog.module(MGR).functions.values():
+                        g2 = None
+                        for n2 in walk_local(f2.node):
+                            if isinstance(n2, ast.Assign) and any(isinstance(t, ast.Attribute) and t.attr == attr for t in n2.targets):
+                                if isinstance(n2.value, ast.Constant) and n2.value.value is None:
+                                    continue
+                                if not isinstance(n2.value, ast.Name) or f2.key != f.key:
+                                    inv = False
+                                    continue
+                                if n2.value.id != hp:
+                                    inv = False
+                            # nobody else rewrites the length of a header loaded from the cache
+                            if f2.key != f.key and isinstance(n2, ast.Assign) and any(isinstance(t, ast.Attribute) and t.attr == "num_data_bytes" and isinstance(t.value, ast.Name)
+                                                                                     and any(isinstance(r, ast.Attribute) and r.attr == attr for _, r in _defs(f2.node, t.value.id)) for t in n2.targets):
+                                inv = False
+                    gsl = flow.guard_states(g, edge_filter=lambda e: not (is_len_store(g.nodes[e.src]) and e.kind != "exc"))
+                    unstored = [p_ for cn_ in call_nodes for p_ in gsl.at(cn_)]
+                    if inv and not guards.any_path_implies(unstored, guards.parse(f"{hp} is not None")):
+                        missing = []
             L.decide(okv and not missing, fkey(f, call), where(f, call), f"length set from the payload on every path [{site}]",
                      f"declared length not tied to the payload: {'; '.join(why) or 'store does not dominate the send'} [{site}]")
             return
